@@ -19,3 +19,5 @@ def check(repo, rep, tier):
     rs.rule_no_shared_class_attrs(em, rep, 'C18.N3b')
     re_.rule_fresh_pipeline(cm, rep, 'C18.N4')
     rs.rule_context_not_written(em, rep, 'C18.N3c')
+    from .. import rules_extra as rx
+    rx.rule_stages_per_call(cm, em, rep, 'C18.N5')
